@@ -72,18 +72,24 @@ def _needs_quote(name: str) -> bool:
 _ELLIPSIS = object()
 
 
-def _format_column(col, max_preview: int | None = None) -> List[str]:
-	"""Returns a list of strings representing that column, truncated for display."""
+def _format_column(col, max_rows: int | None = None) -> List[str]:
+	"""Returns a list of strings representing that column, truncated for display.
+
+	max_rows is the total number of data rows to show (head + tail); data with more
+	rows than that is shown as its first and last rows around an ellipsis.
+	"""
 	# Use global default if not specified
-	if max_preview is None:
-		max_preview = _REPR_ROWS_DEFAULT // 2
+	if max_rows is None:
+		max_rows = _REPR_ROWS_DEFAULT
 	# At least one head and one tail row: vals[-0:] would be the whole column
-	max_preview = max(1, max_preview)
+	max_rows = max(2, max_rows)
+	head = (max_rows + 1) // 2
+	tail = max_rows // 2
 	
-	# Truncate with symmetric preview
+	# Truncate only data longer than the limit (an odd limit shows one more head row)
 	vals = col._underlying
-	if len(vals) > max_preview * 2:
-		preview = list(vals[:max_preview]) + [_ELLIPSIS] + list(vals[-max_preview:])
+	if len(vals) > max_rows:
+		preview = list(vals[:head]) + [_ELLIPSIS] + list(vals[-tail:])
 	else:
 		preview = list(vals)
 
@@ -337,10 +343,10 @@ def _repr_vector(v) -> str:
 def _repr_table(tbl) -> str:
 	"""Pretty repr for a 2D Table."""
 	
-	# Check if table has custom repr_rows setting
-	max_preview = None
+	# Check if table has custom repr_rows setting (total rows, head + tail)
+	max_rows = None
 	if hasattr(tbl, '_repr_rows') and tbl._repr_rows is not None:
-		max_preview = tbl._repr_rows // 2
+		max_rows = tbl._repr_rows
 	
 	cols = tbl.cols()
 	num_cols = len(cols)
@@ -370,7 +376,7 @@ def _repr_table(tbl) -> str:
 			dtypes_all.append("object")
 
 	# Format columns
-	formatted_cols = [_format_column(cols[i], max_preview=max_preview) for i in col_indices]
+	formatted_cols = [_format_column(cols[i], max_rows=max_rows) for i in col_indices]
 
 	# Insert "..." column if truncated
 	if truncated:
